@@ -439,9 +439,12 @@ func ExecReader(data any, selector string) (any, error) {
 		}
 		cache[selector] = allSelectors
 	}
+	// read the entry while the lock is still held: the map may be written by
+	// another goroutine as soon as the lock is released
+	allSelectors := cache[selector]
 	mut.Unlock()
 	result := data
-	for _, item := range cache[selector] {
+	for _, item := range allSelectors {
 		rs, err := ReaderExecutor(result, item)
 		if err != nil {
 			return nil, err
